@@ -124,10 +124,9 @@ func subset(cells []cell, seed int64, per int) []cell {
 				seen := map[int]bool{}
 				for len(seen) < per && len(seen) < 54 {
 					c := cell{m, as, r.Intn(2) == 1, npollers[r.Intn(3)], rbss[r.Intn(3)], maxreads[r.Intn(3)], tr}
-					if as && len(seen) == 0 {
-						// the first completion of an async combination alternates default / custom executor with the seed
-						c.Custom = (seed+int64(combo))%2 == 0
-					}
+					// the first completion of every combination has the custom executor / read-buffer hooks (their kinds rotate
+					// with the seed, see bufSource), the second the engine's defaults
+					c.Custom = len(seen) == 0
 					if seen[c.Index()] {
 						continue
 					}
@@ -199,7 +198,9 @@ type realTier struct {
 	sockN    int
 	slow     int  // findings that cost seconds each (stall, idle spin)
 	total    int
-	noHCNow  bool // debugging aid: no end of stream right behind the data
+	full     bool   // the full matrix: buffer kinds are drawn per cell; otherwise they rotate with the seed
+	buffers  string // replay: force this buffer kind
+	noHCNow  bool   // debugging aid: no end of stream right behind the data
 	idleLog  []float64
 }
 
@@ -475,7 +476,7 @@ func (rt *realTier) runStream(c cell, r *rand.Rand, engineNo int, doIdle bool) {
 		rt.sockN++
 		addr = filepath.Join(rt.dir, fmt.Sprintf("s%d.sock", rt.sockN))
 	}
-	src := newBufSource(c, r)
+	src := newBufSource(c, r, rt.seed, rt.full, rt.buffers)
 	defer src.close()
 	lockPoller := r.Intn(4) == 0
 	env := &streamEnv{openCh: make(chan struct{}, 64), src: src}
@@ -1034,7 +1035,7 @@ type udpRec struct {
 
 func (rt *realTier) runUDP(c cell, r *rand.Rand, engineNo int, doIdle bool) {
 	rep := rt.rep
-	src := newBufSource(c, r)
+	src := newBufSource(c, r, rt.seed, rt.full, rt.buffers)
 	defer src.close()
 	lockPoller := r.Intn(4) == 0
 	g := nbio.NewEngine(c.config("udp", "127.0.0.1:0", src, lockPoller))
